@@ -9,7 +9,7 @@ from fractions import Fraction
 import common
 from common import Outcome, frac_str, classify_exc
 
-NAMES = ['plain', 'a: b', 'say "hi"', '{curly} {{x}}', '<b>bold</b>', 'cost $5 $name ${x}', 'id_7, 01.01.2024 00:00', 'ünï ✓', "it's", 'a --> b', 'x}} --> 7{{y', 'semi;colon', '</script>', '%d', '\\n back\\slash']
+NAMES = ['Build }} --> 99((extra))', 'open {{ only', 'plain', 'a: b', 'say "hi"', '{curly} {{x}}', '<b>bold</b>', 'cost $5 $name ${x}', 'id_7, 01.01.2024 00:00', 'ünï ✓', "it's", 'a --> b', 'x}} --> 7{{y', 'semi;colon', '</script>', '%d', '\\n back\\slash']
 NOW = datetime(2024, 1, 16, 12, 0)      # in the middle of the generated dates: finished, running and future tasks all occur
 
 
@@ -152,6 +152,7 @@ def judge(prop, case, rec, out):
         mon['oneEntryPerTask'] = sorted(ids) == sorted(t['id'] for t in rec['dhtmlx'] if True) and len(ids) == len(set(ids))
         lid = [l[0] for l in rec['obsLinks']]
         mon['linksNumbered'] = lid == list(range(1, len(lid) + 1))
+        mon['progressInRange'] = all(0 <= Fraction(e[6]) <= 1 for e in rec['obsData'])
     hyp = {}
     sig = None
     # (until the repair of KF-R1 a failing network clause on a name with braces was a known finding; the clause is now claimed for
